@@ -2,7 +2,7 @@
 use proptest::prelude::*;
 use serde::{Deserialize, Serialize};
 use tevec::prelude::{AggValidFinal, CorrMethod, MapValidFinal, WinsorizeMethod};
-use tvh::engine::{fail, main_for, sub, CheckResult, Obs, Property, Tier};
+use tvh::engine::{fail, main_for, sub, sub_enum, CheckResult, Obs, Property, Tier};
 use tvh::gen::{len_strategy, raw_pair, raw_series, series_of, InT, Series};
 use tvh::model::{compare, expect_agg2, Stat2};
 
@@ -414,6 +414,75 @@ fn check_half_life(c: &HCase, obs: &mut Obs) -> CheckResult {
     Ok(())
 }
 
+/// Small-scope enumeration for the half-life: EVERY series of a given short length over a small integer
+/// alphabet (tick-like data: all power sums are exact, so an autocorrelation can be exactly 0.5 - the
+/// boundary the definition "first lag at which it is NOT above 0.5" turns on, which float data never
+/// hits). A lag whose independently computed autocorrelation is within 1e-9 of 0.5 is decided by the
+/// library's own public Pearson correlation of the series with its lagged copy, compared exactly.
+#[derive(Clone, Debug, Serialize, Deserialize)]
+struct HSmall {
+    len: usize,
+    base: u32,
+    code: u32,
+}
+
+fn h_small_cases(tier: Tier) -> impl Iterator<Item = HSmall> {
+    // quick: length 7 over {0..6} (823 543 series); thorough adds length 6 and 8 (over {0..5})
+    let plans: Vec<(usize, u32)> = if tier == Tier::Quick { vec![(7, 7)] } else { vec![(7, 7), (6, 7), (8, 6), (9, 4)] };
+    plans.into_iter().flat_map(|(len, base)| (0..base.pow(len as u32)).map(move |code| HSmall { len, base, code }))
+}
+
+fn check_half_life_small(c: &HSmall, obs: &mut Obs) -> CheckResult {
+    use tevec::prelude::{AggValidBasic, MapValidBasic, TIter};
+    let mut code = c.code;
+    let d: Vec<f64> = (0..c.len)
+        .map(|_| {
+            let v = (code % c.base) as f64;
+            code /= c.base;
+            v
+        })
+        .collect();
+    let x: Series = d.iter().map(|v| Some(*v)).collect();
+    let len = c.len;
+    let mut nontrivial = false;
+    for mp in [1usize, 3] {
+        let got = d.half_life(Some(mp));
+        if got > len - 1 || got == 0 {
+            return fail("half_life:small:range", format!("half_life(min_periods {}) of {:?} = {}", mp, d, got));
+        }
+        let mut tie = false;
+        let above: Vec<bool> = (1..len)
+            .map(|l| match autocorr(&x, l, mp) {
+                Some(r) if (r - 0.5).abs() > 1e-9 => r > 0.5,
+                Some(_) => {
+                    tie = true;
+                    let lib: f64 = d.titer().vcorr_pearson(d.titer().vshift(l as i32, None), mp);
+                    lib > 0.5
+                },
+                None => false,
+            })
+            .collect();
+        let l_first = above.iter().position(|a| !*a).map(|p| p + 1).unwrap_or(len);
+        let shape_ok = above[l_first.min(len) - 1..].iter().all(|a| !*a);
+        if shape_ok {
+            let want = l_first.min(len - 1);
+            if got != want {
+                return fail(
+                    if tie { "half_life:small:first-lag:exact-half" } else { "half_life:small:first-lag" },
+                    format!("half_life(min_periods {}) of {:?} = {} but the autocorrelation is above 0.5 exactly for lags < {} (flags per lag {:?})", mp, d, got, l_first, above),
+                );
+            }
+            if l_first >= 3 && !l_first.is_power_of_two() {
+                nontrivial = true;
+                obs.class("bisection_needed");
+            }
+            obs.class_if(tie, "autocorrelation_exactly_half_at_some_lag");
+        }
+    }
+    obs.set_nontrivial(nontrivial);
+    Ok(())
+}
+
 /// Very long series with giant tie groups (a +-1 direction series of 70 000..140 000 points): the
 /// summed ranks of one tie group exceed 2^31, average ranks must still be exact and Spearman must
 /// equal the Pearson correlation of those ranks. The case stores only (n, seed-like parameters).
@@ -479,7 +548,7 @@ fn main() {
         "C20",
         "winsorize cases = (series of length 0..=30 (thorough ..=200) with nulls, f64 or i32; method quantile with q = a/b <= 0.5, median-MAD and sigma with k = a/4 in 0..=4, or the default parameter): output length == input length, nulls stay null, with independently computed bounds every value strictly inside is bit-identical, every value outside lands on the nearer bound (within the stated rounding band), undefined bounds return the data unchanged, order is preserved. \
          Spearman cases = pairs of integer-valued series with nulls and ties: vcorr(Spearman) equals Pearson of independently computed average ranks (DESIGN 5.9) and is bit-identical after x -> 2x+1, x -> x^3, x -> x-1000 applied to either or both series. \
-         half_life cases = constant / monotone / alternating / AR(1) with persistence in (-1,1) / noise, with nulls, min_periods omitted or 1..=len: returns without panic (overflow checks on), result in 1..=len-1 (0 only for len < 2), and equals the first lag whose autocorrelation is not above 0.5 whenever the independently computed autocorrelation has that shape. \
+         half_life cases = constant / monotone / alternating / AR(1) with persistence in (-1,1) / noise, with nulls, min_periods omitted or 1..=len: returns without panic (overflow checks on), result in 1..=len-1 (0 only for len < 2), and equals the first lag whose autocorrelation is not above 0.5 whenever the independently computed autocorrelation has that shape; sub half_life:small_integer_scope enumerates EVERY series of length 7 over {0..6} (thorough: also length 6 over {0..6}, 8 over {0..5}, 9 over {0..3}) with min_periods 1 and 3, a lag whose autocorrelation is within 1e-9 of 0.5 being decided by the library's own Pearson correlation of the series with its lagged copy (non-trivial there = the first such lag is >= 3 and not a power of two). \
          Non-trivial: (winsorize) at least one value moved and one kept; (Spearman) >= 4 complete pairs, a tie, non-null result; (half_life) shape rule applies with first lag >= 3 and not a power of two (bisection needed); distinct = distinct serialised cases",
     )
     .assume("winsorize bounds are compared inside a rounding band around each bound (values within the band may legitimately fall on either side)");
@@ -487,5 +556,6 @@ fn main() {
     p.add(sub("spearman", 15000, 400000, s_case, check_spearman));
     p.add(sub("long_tie_groups", 1, 12, long_tie_case, check_long_ties));
     p.add(sub("half_life", 15000, 400000, h_case, check_half_life));
+    p.add(sub_enum("half_life:small_integer_scope", h_small_cases, check_half_life_small));
     main_for(p);
 }
